@@ -157,6 +157,7 @@ def item_st(draw, tier="quick", functionals=None):
         item["req"] = [r0, (not r0) or draw(st.booleans())]
         item["maxiter"] = draw(st.integers(1, 5 if tier == "quick" else 12))
         item["useM"] = draw(st.booleans())
+        item["freshM"] = draw(st.booleans())
         if functional == "solve":
             item["useE"] = draw(st.booleans())
             item["ncols"] = draw(st.integers(1, 2))
